@@ -1,7 +1,7 @@
 (* Extract.v — extraction of the executable model to OCaml.
    Directives: only those of ExtrOcamlBasic (bool, option, unit, prod, list,
    sumbool, sumor -> native OCaml types).  positive/N/Z/nat stay Coq inductives. *)
-From PauLie Require Import Pauli Matrix Sym ClosureN LieInv Star Validator Member Collection.
+From PauLie Require Import Pauli Matrix Sym ClosureN LieInv Star Validator Member Collection PauliBits.
 Require Extraction ExtrOcamlBasic.
 Extraction Language OCaml.
 Extraction "oracle.ml"
@@ -12,4 +12,5 @@ Extraction "oracle.ml"
   algprops algprops_old algebra_terms dla_dim dla_dim_old name_dim2
   reduction_check_strs shape_acct_strs
   member_strs space_strs
-  mk run.
+  mk run
+  fresh apply_edit set_substring inc text get_index get_diagonal_index gen_all.
